@@ -96,3 +96,48 @@ Definition cluster_stats (cc : list (Z * Z)) : nat * nat * Q :=
   let sizes := map snd (cluster_sizes cc) in
   (length sizes, fold_right Nat.max O sizes,
    Qmake (Z.of_nat (fold_right Nat.add O sizes)) (Pos.of_nat (length sizes))).
+
+(* Note on the empty node table: SQL returns (0, NULL, NULL) there; cluster_stats [] = (0, 0, 0 # 1).
+   Every theorem about cluster_stats is about a non-empty node table or independent of it. *)
+
+(* The same routine with the C05 *loop model* (Model/CC.v, fuel-bounded) for every inner
+   clustering call instead of its spec; None if any inner call ran out of fuel. *)
+Definition next_cc_lm (nodes : list Z) (edges : list (Z * Z * Q)) (t t' : Q) (cc : list (Z * Z))
+  : option (list (Z * Z)) :=
+  let cep := cluster_edge_probabilities cc (relevant_edges t edges) in
+  let sn := stable_nodes cc (stable_clusters t' cep) in
+  let nip := nodes_in_play nodes sn in
+  match cluster_at_threshold nip (edges_in_play edges nip) (Some t') with
+  | Some out => Some (sn ++ out)
+  | None => None
+  end.
+
+Fixpoint multi_loop_lm (nodes : list Z) (edges : list (Z * Z * Q)) (t : Q) (cc : list (Z * Z)) (ts : list Q)
+  : option (list (Q * list (Z * Z))) :=
+  match ts with
+  | [] => Some []
+  | t' :: rest =>
+      match next_cc_lm nodes edges t t' cc with
+      | None => None
+      | Some cc' =>
+          match multi_loop_lm nodes edges t' cc' rest with
+          | None => None
+          | Some r => Some ((t', cc') :: r)
+          end
+      end
+  end.
+
+Definition multi_lm (nodes : list Z) (edges : list (Z * Z * Q)) (thresholds : list Q)
+  : option (list (Q * list (Z * Z))) :=
+  match sortQ thresholds with
+  | [] => Some []
+  | t0 :: rest =>
+      match cluster_at_threshold nodes edges (Some t0) with
+      | None => None
+      | Some cc0 =>
+          match multi_loop_lm nodes edges t0 cc0 rest with
+          | None => None
+          | Some r => Some ((t0, cc0) :: r)
+          end
+      end
+  end.
